@@ -73,6 +73,11 @@ def generate(seed, tier="quick"):
         if i > 0 and srng.random() < 0.5:
             step["edit_seed"] = srng.randint(0, 10**9)
         steps.append(step)
+    wrng = sub(seed, "twin")
+    if wrng.random() < 0.1 and len(prog["files"]) == 1:
+        # a second module with the same text layout (same functions on the same lines) and other observed data: the categories of a site
+        # are computed from its own observations only
+        W.add_twin_file(prog, wrng, vary=True)
     driver = "plugin" if sub(seed, "driver").random() < 0.12 else "inline"
     xr = sub(seed, "xfail")
     if driver == "plugin" and xr.random() < 0.5:
